@@ -83,8 +83,8 @@ fn sort_comparator(parser: &Parser, x: &Vec<ParseRepair>, y: &Vec<ParseRepair>) 
     ensures r == before_(&parser.grm, x@, y@), // OBL: C06.ranking_avoid_insert_last_then_shorter_first
 {
     //@probe
-    //@body file=lrpar/src/lib/cpctplus.rs fn=simplify_repairs block=`all_rprs\.sort_unstable_by\(\|x, y\| \{` end=`^\s*\}\);`
-    //@rule n=1 `^\s*all_rprs\.sort_unstable_by\(\|x, y\| \{\n` => ``
+    //@body file=lrpar/src/lib/cpctplus.rs fn=simplify_repairs block=`all_rprs\.sort_by\(\|x, y\| \{` end=`^\s*\}\);`
+    //@rule n=1 `^\s*all_rprs\.sort_by\(\|x, y\| \{\n` => ``
     //@rule n=1 `^(\s*)\}\);\s*$` => ``
     //@rule n=2 `contains_avoid_insert\((\w)\)` => `contains_avoid_insert(parser, \1)`
     //@rule n=1 `x\.len\(\)\.cmp\(&y\.len\(\)\)` => `usize_cmp(x.len(), y.len())`
@@ -187,7 +187,7 @@ fn strip_at(v: &mut Vec<Vec<ParseRepair>>, i: usize)
     strip_trailing_shifts(&mut tmp);
     swap_elem(v, i, &mut tmp);
 }
-#[verifier::external_body] pub struct SeqSet { _x: usize }     // HashSet<Vec<ParseRepair>>
+#[verifier::external_body] pub struct SeqSet { _x: usize }     // IndexSet<Vec<ParseRepair>> (insertion-ordered; only its set semantics are used here)
 impl SeqSet { pub uninterp spec fn v(&self) -> Set<Seq<ParseRepair>>; }
 // `v.drain(..).collect::<HashSet<_>>()`: the set of the vector's elements; the vector is left empty
 #[verifier::external_body]
@@ -200,7 +200,7 @@ pub fn extend_from_set(v: &mut Vec<Vec<ParseRepair>>, hs: &mut SeqSet)
     requires old(v)@.len() == 0,
     ensures nodup(final(v)@), forall|s: Seq<ParseRepair>| hasv(final(v)@, s) <==> old(hs).v().contains(s),
 { unimplemented!() }
-// `v.sort_unstable_by(cmp)` with the comparator verified above as sort_comparator: a permutation in comparator order
+// `v.sort_by(cmp)` (stable) with the comparator verified above as sort_comparator: a permutation in comparator order
 #[verifier::external_body]
 pub fn sort_unstable_by_comparator(parser: &Parser, v: &mut Vec<Vec<ParseRepair>>)
     ensures final(v)@.len() == old(v)@.len(), nodup(old(v)@) ==> nodup(final(v)@),
@@ -259,15 +259,15 @@ fn simplify_repairs(parser: &Parser, all_rprs: &mut Vec<Vec<ParseRepair>>)
     {
         //@probe
     //@end
-    //@rule n=1 `let mut hs: HashSet<Vec<ParseRepair<LexerTypesT::LexemeT, \$T>>> =\s*all_rprs\.drain\(\.\.\)\.collect\(\);` =>>
+    //@rule n=1 `let mut hs: IndexSet<Vec<ParseRepair<LexerTypesT::LexemeT, \$T>>> =\s*all_rprs\.drain\(\.\.\)\.collect\(\);` =>>
     let ghost a_ = all_rprs@;
     let mut hs: SeqSet = drain_to_set(all_rprs);
     //@end
-    //@rule n=1 `all_rprs\.extend\(hs\.drain\(\)\);` => `extend_from_set(all_rprs, &mut hs);`
+    //@rule n=1 `all_rprs\.extend\(hs\.drain\(\.\.\)\);` => `extend_from_set(all_rprs, &mut hs);`
     //@cut n=1 `let contains_avoid_insert = \|rprs` =>>
         // (the closure contains_avoid_insert is the function of that name above)
     //@end
-    //@cut n=1 `all_rprs\.sort_unstable_by\(` =>>
+    //@cut n=1 `all_rprs\.sort_by\(` =>>
         // (the comparator closure is the function sort_comparator above)
         sort_unstable_by_comparator(parser, all_rprs)
     //@end
